@@ -75,7 +75,7 @@ def build_cards(kind, cards, pooled=("P", "Q")):
     return cvrs, mvrs
 
 
-def build_assertion(kind, audit_type, use_style, n_cards, test=None, estim=None, test_kwargs=None, keep_all=False):
+def build_assertion(kind, audit_type, use_style, n_cards, test=None, estim=None, test_kwargs=None, keep_all=False, direct=False):
     scf = Contest.SOCIAL_CHOICE_FUNCTION.PLURALITY if kind == "plurality" else (
         Contest.SOCIAL_CHOICE_FUNCTION.SUPERMAJORITY if kind in SM else Contest.SOCIAL_CHOICE_FUNCTION.IRV)
     js = None
@@ -90,6 +90,9 @@ def build_assertion(kind, audit_type, use_style, n_cards, test=None, estim=None,
                              "use_style": use_style, "sample_size": None, "sample_threshold": None, "tally": None})
     cons = {CID: con}
     Assertion.make_all_assertions(cons)
+    if direct and kind in SM:  # the constructor called directly, its optional share_to_win left out: the contest's share rules
+        con.assertions = Assertion.make_supermajority_assertion(con, winner="A", loser=["B", "C"], test=test or NonnegMean.alpha_mart, estim=estim,
+                                                                test_kwargs=test_kwargs or {})
     name, asn = next(iter(con.assertions.items()))
     if not keep_all:
         con.assertions = {name: asn}  # one assertion under study (plurality builds "A v B" and "A v C")
@@ -111,12 +114,12 @@ def ref_upper(kind):
     return 1 / (2 * SM[kind][1]) if kind in SM else F(1)
 
 
-def workflow(kind, cards, use_style, audit_type=Audit.AUDIT_TYPE.ONEAUDIT, via_all=False, add_pool=True, keep_all=False, prior=False):
+def workflow(kind, cards, use_style, audit_type=Audit.AUDIT_TYPE.ONEAUDIT, via_all=False, add_pool=True, keep_all=False, prior=False, direct=False):
     """the documented preparation on real objects; returns dict with everything the oracles need.
     prior=True: the same assertion objects were used before, on an earlier version of the population in which batch R
     was still pooled and the CVRs said something else (a non-initial state of the assorter)"""
     cvrs, mvrs = build_cards(kind, cards)
-    con, asn, audit = build_assertion(kind, audit_type, use_style, len(cards), keep_all=keep_all)
+    con, asn, audit = build_assertion(kind, audit_type, use_style, len(cards), keep_all=keep_all, direct=direct)
     with warnings.catch_warnings():
         warnings.simplefilter("ignore")
         if prior:
